@@ -467,4 +467,95 @@ theorem set_si_spec (v : Int) (h1 : LONG_MIN ≤ v) (h2 : v ≤ LONG_MAX) :
 
 example : mpz_set_si LONG_MIN = ⟨-1, [2 ^ 63]⟩ ∧ mpz_set_sx (-5) = ⟨-1, [5]⟩ ∧ mpz_set_si LONG_MAX = ⟨1, [2 ^ 63 - 1]⟩ := by decide
 
+/-! ## 4. Integers to doubles: mpn_get_d is truncation toward zero -/
+
+/-- get_d_bits_spec.  For every limb vector with a non-zero high limb (any size an address space can hold),
+    either sign and every exponent in the range of `long`, the word-level model of `mpn_get_d` (limb selection,
+    shifts, `m0 >>= 11`, overflow test, denormal shifts, assembly of the sign / exponent / mantissa fields)
+    returns exactly the bit pattern of ±{ptr,size}·2^exp truncated toward zero to a double, and decoding that
+    pattern gives the specification `truncate53`: 53 significant bits, ±∞ when the value is ≥ 2^1024,
+    the fixed quantum 2^-1074 in the denormal range, +0.0 below 2^-1074. -/
+theorem get_d_bits_spec (ptr : List Nat) (sign exp : Int) (hL : Limbs ptr) (ht : ptr ≠ [] → ptr.getLast? ≠ some 0)
+    (hsz : ptr.length < 2 ^ 57) (he1 : LONG_MIN ≤ exp) (he2 : exp ≤ LONG_MAX) :
+    decode (mpn_get_d ptr sign exp) = truncate53 (if sign < 0 then -(val ptr : Int) else (val ptr : Int)) exp ∧
+    mpn_get_d ptr sign exp = truncToDouble (if sign < 0 then -(val ptr : Int) else (val ptr : Int)) exp := by
+  have h := mpn_get_d_eq ptr sign exp hL ht hsz he1 he2
+  exact ⟨by rw [h]; exact decode_truncToDouble _ _, h⟩
+
+-- non-vacuity: 2^53+1 truncates (not rounds) to 2^53; a 2-limb value; overflow; largest denormal; underflow
+example : mpn_get_d [2 ^ 53 + 1] 1 0 = 0x4340000000000000 ∧ mpn_get_d [2 ^ 64 - 1, 2 ^ 64 - 1] (-1) 0 = 0xC7EFFFFFFFFFFFFF ∧
+    mpn_get_d [1] 1 1024 = 0x7FF0000000000000 ∧ mpn_get_d [2 ^ 64 - 1] 1 (-1086) = 0x000FFFFFFFFFFFFF ∧
+    mpn_get_d [1] 1 (-1074) = 1 ∧ mpn_get_d [1] (-1) (-1075) = 0 := by decide
+
+/-- The clauses of the specification: what `truncate53` (hence the decoded result of mpn_get_d) is, with
+    v = |x| ≠ 0 and E = bitlen v + e (so 2^(E-1) ≤ v·2^e < 2^E):
+    overflow to ±∞ iff E > 1024; otherwise sign, mantissa = floor (v·2^e / 2^q), quantum q = max (E-53) (-1074);
+    a zero mantissa (E ≤ -1074) gives +0.0.  The mantissa is a floor: m·2^q ≤ v·2^e < (m+1)·2^q (`shiftZ_floor`). -/
+theorem truncate53_clauses (x e : Int) (hx : x ≠ 0) :
+    (bitlen x.natAbs + e > 1024 → truncate53 x e = .inf (decide (x < 0))) ∧
+    (-1021 ≤ bitlen x.natAbs + e → bitlen x.natAbs + e ≤ 1024 →
+      truncate53 x e = .fin (decide (x < 0)) (shiftZ x.natAbs (53 - (bitlen x.natAbs : Int))) ((bitlen x.natAbs : Int) + e - 53) ∧
+      2 ^ 52 ≤ shiftZ x.natAbs (53 - (bitlen x.natAbs : Int)) ∧ shiftZ x.natAbs (53 - (bitlen x.natAbs : Int)) < 2 ^ 53) ∧
+    (-1073 ≤ bitlen x.natAbs + e → bitlen x.natAbs + e ≤ -1022 →
+      truncate53 x e = .fin (decide (x < 0)) (shiftZ x.natAbs (e + 1074)) (-1074) ∧
+      1 ≤ shiftZ x.natAbs (e + 1074) ∧ shiftZ x.natAbs (e + 1074) < 2 ^ 52) ∧
+    (bitlen x.natAbs + e ≤ -1074 → truncate53 x e = .fin false 0 (-1074)) := by
+  obtain ⟨d1, d2, d3, d4⟩ := truncate53_cases x e hx
+  obtain ⟨t1, t2⟩ := top53_bounds (v := x.natAbs) (by omega)
+  refine ⟨d1, fun a b => ⟨d2 a b, t1, t2⟩, fun a b => ?_, d4⟩
+  obtain ⟨dd, l1, l2, eq⟩ := d3 a b
+  rw [← eq]; exact ⟨dd, l1, l2⟩
+
+example : truncate53 (2 ^ 53 + 1) 0 = .fin false (2 ^ 52) 1 ∧ truncate53 (-3) (-1075) = .fin true 1 (-1074) ∧
+    truncate53 1 1024 = .inf false ∧ truncate53 (-1) (-1075) = .fin false 0 (-1074) := by decide
+
+/-- mpz_get_d: op truncated toward zero to a double (±∞ when |op| ≥ 2^1024), for every well-formed op. -/
+theorem mpz_get_d_spec (z : Z) (hz : z.wf) (hsz : z.d.length < 2 ^ 57) :
+    mpz_get_d z = truncToDouble z.toInt 0 ∧ decode (mpz_get_d z) = truncate53 z.toInt 0 := by
+  have main : mpz_get_d z = truncToDouble z.toInt 0 := by
+    unfold mpz_get_d
+    by_cases h0 : z.size = 0
+    · rw [if_pos h0, (Z.toInt_sign hz).2.1 h0]; decide
+    · rw [if_neg h0]
+      have := mpn_get_d_eq z.d z.size 0 hz.2.1 hz.2.2 hsz (by decide) (by decide)
+      rw [this]; rfl
+  exact ⟨main, by rw [main]; exact decode_truncToDouble _ _⟩
+
+example : mpz_get_d ⟨-2, [1, 2 ^ 63]⟩ = 0xC7E0000000000000 ∧ mpz_get_d ⟨17, List.replicate 16 0 ++ [1]⟩ = 0x7FF0000000000000 := by decide
+
+/-- mpz_get_d_2exp: the exponent is the bit length of |op| and the double is op·2^-exp truncated, so that
+    0.5 ≤ |d| < 1: decoded, d = ± m·2^-53 with 2^52 ≤ m < 2^53, m the 53 leading bits of |op|. -/
+theorem mpz_get_d_2exp_spec (z : Z) (hz : z.wf) (hnz : z.size ≠ 0) (hsz : z.d.length < 2 ^ 57) :
+    (mpz_get_d_2exp z).2 = bitlen z.toInt.natAbs ∧
+    (mpz_get_d_2exp z).1 = truncToDouble z.toInt (-(bitlen z.toInt.natAbs : Int)) ∧
+    decode (mpz_get_d_2exp z).1 = .fin (decide (z.toInt < 0)) (shiftZ z.toInt.natAbs (53 - (bitlen z.toInt.natAbs : Int))) (-53) ∧
+    2 ^ 52 ≤ shiftZ z.toInt.natAbs (53 - (bitlen z.toInt.natAbs : Int)) ∧
+    shiftZ z.toInt.natAbs (53 - (bitlen z.toInt.natAbs : Int)) < 2 ^ 53 := by
+  have hne : z.d ≠ [] := by intro e; have := hz.1; rw [e] at this; simp at this; omega
+  obtain ⟨hbl, hls⟩ := bitlen_val hz.2.1 hne hz.2.2
+  have hlen := hz.1
+  have hx : z.toInt ≠ 0 := by
+    obtain ⟨s1, _, s3⟩ := Z.toInt_sign hz
+    rcases lt_or_gt_of_ne hnz with h | h
+    · have := s1 h; omega
+    · have := s3 h; omega
+  have e1 : (mpz_get_d_2exp z).2 = bitlen z.toInt.natAbs := by
+    unfold mpz_get_d_2exp; rw [if_neg hnz]; dsimp only
+    rw [Z.natAbs_toInt, hbl, ← hlen]; omega
+  have e2 : (mpz_get_d_2exp z).1 = truncToDouble z.toInt (-(bitlen z.toInt.natAbs : Int)) := by
+    unfold mpz_get_d_2exp; rw [if_neg hnz]; dsimp only
+    have hexp : ((z.size.natAbs : Int) * 64 - (clz64 (z.d.getD (z.size.natAbs - 1) 0) : Int)) = (bitlen z.toInt.natAbs : Int) := by
+      rw [Z.natAbs_toInt, hbl, ← hlen]; omega
+    rw [hexp]
+    have hb : (bitlen z.toInt.natAbs : Int) ≤ 2 ^ 63 := by rw [Z.natAbs_toInt, hbl]; omega
+    have := mpn_get_d_eq z.d z.size (-(bitlen z.toInt.natAbs : Int)) hz.2.1 hz.2.2 hsz
+      (by unfold LONG_MIN; omega) (by unfold LONG_MAX; omega)
+    rw [this]; rfl
+  obtain ⟨_, c2, _, _⟩ := truncate53_clauses z.toInt (-(bitlen z.toInt.natAbs : Int)) hx
+  obtain ⟨dd, t1, t2⟩ := c2 (by omega) (by omega)
+  refine ⟨e1, e2, ?_, t1, t2⟩
+  rw [e2, decode_truncToDouble, dd]; congr 1; omega
+
+example : mpz_get_d_2exp ⟨1, [5]⟩ = (0x3FE4000000000000, 3) ∧ mpz_get_d_2exp ⟨-2, [1, 2 ^ 63]⟩ = (0xBFE0000000000000, 128) := by decide
+
 end Mpir.Conv
